@@ -172,3 +172,27 @@ HEAP_HEADERS["C17"] = ("From CppUVerif Require Import lib.CSem lib.CMem lib.CHea
                        "(* translated by tools/cxx2heap.py: CppUTestStore and SetPointerPlugin::postTestAction; the file-static pointerTableIndex and "
                        "setlist[MAX_SET] are heap objects reached through the pointer parameters g_pointerTableIndex / g_setlist; a `void**` is the "
                        "address of a cell; FAIL(...) is the ghost event HFail and leaves the function *)\n")
+
+# ------------------------------------------------------------------ C02: the registered-test list and the shuffle / reverse array
+UTS = "src/CppUTest/Utest.cpp"
+TRG = "src/CppUTest/TestRegistry.cpp"
+_G02 = [["rands", "list Z"]]
+_C02C = {"getNext": {"fn": "src_shell_getNext", "method": True}, "addTest": {"fn": "src_shell_addTest", "method": True},
+         "countTests": {"fn": "src_shell_countTests", "method": True},
+         "swap": {"fn": "src_array_swap", "method": True}, "relinkTestsInOrder": {"fn": "src_array_relinkTestsInOrder", "method": True},
+         "get": {"fn": "src_array_get", "method": True},
+         "PlatformSpecificRand": {"pop": "rands"}, "PlatformSpecificSrand": {"ignore": True}}
+_C02R = dict(_C02C); _C02R["addTest"] = {"fn": "src_shell_addTest", "method": True}
+HEAP_RECORDS["C02"] = [["UtestShell", UTS], ["UtestShellPointerArray", UTS], ["TestRegistry", TRG, "own"]]
+HEAP_GROUPS["C02"] = (
+    [dict(file=UTS, name="UtestShell::getNext", coq="src_shell_getNext", calls=_C02C, ghosts=_G02),
+     dict(file=UTS, name="UtestShell::addTest", coq="src_shell_addTest", calls=_C02C, ghosts=_G02),
+     dict(file=UTS, name="UtestShell::countTests", coq="src_shell_countTests", calls=_C02C, ghosts=_G02, recursive=True)] +
+    [dict(file=UTS, name="UtestShellPointerArray::" + n, coq="src_array_" + n, calls=_C02C, ghosts=_G02) for n in
+     ["swap", "get", "getFirstTest", "relinkTestsInOrder", "reverse", "shuffle"]] +
+    [dict(file=TRG, name="TestRegistry::" + n, coq="src_registry_" + n, calls=_C02C, ghosts=_G02) for n in
+     ["addTest", "getFirstTest", "getTestWithNext", "countTests"]])
+HEAP_HEADERS["C02"] = ("From CppUVerif Require Import lib.CSem lib.CMem lib.CHeap.\nLocal Open Scope Z_scope.\n"
+                       "(* translated by tools/cxx2heap.py: the list of registered tests (UtestShell::next_, TestRegistry::tests_) and the pointer array "
+                       "that shuffles and reverses it; PlatformSpecificRand() takes the next value of the ghost stream rands; virtual addTest / "
+                       "countTests are the UtestShell definitions (no class of the repository overrides them) *)\n")
